@@ -152,27 +152,41 @@ Lemma fold_left_map_set {V W} (g : W -> V) (key : W -> list N) (l : list W) (acc
 Proof. revert acc. induction l as [|w l IH]; intros acc; cbn [map fold_left fst snd]; auto. Qed.
 
 (* ---------- one equation per tag id ---------- *)
-Lemma any_byte f : dec_any (S f) idByte = (v <- rd_i8 ;; Ret (AByte v)). Proof. reflexivity. Qed.
-Lemma any_short f : dec_any (S f) idShort = (v <- rd_i16 ;; Ret (AShort v)). Proof. reflexivity. Qed.
-Lemma any_int f : dec_any (S f) idInt = (v <- rd_i32 ;; Ret (AInt v)). Proof. reflexivity. Qed.
-Lemma any_long f : dec_any (S f) idLong = (v <- rd_i64 ;; Ret (ALong v)). Proof. reflexivity. Qed.
-Lemma any_float f : dec_any (S f) idFloat = (v <- rd_i32 ;; Ret (AFloat (u32 v))). Proof. reflexivity. Qed.
-Lemma any_double f : dec_any (S f) idDouble = (v <- rd_i64 ;; Ret (ADouble (u64 v))). Proof. reflexivity. Qed.
-Lemma any_bytearray f : dec_any (S f) idByteArray =
+Lemma any_byte f dep : dany (S f) dep idByte = (v <- rd_i8 ;; Ret (AByte v)). Proof. reflexivity. Qed.
+Lemma any_short f dep : dany (S f) dep idShort = (v <- rd_i16 ;; Ret (AShort v)). Proof. reflexivity. Qed.
+Lemma any_int f dep : dany (S f) dep idInt = (v <- rd_i32 ;; Ret (AInt v)). Proof. reflexivity. Qed.
+Lemma any_long f dep : dany (S f) dep idLong = (v <- rd_i64 ;; Ret (ALong v)). Proof. reflexivity. Qed.
+Lemma any_float f dep : dany (S f) dep idFloat = (v <- rd_i32 ;; Ret (AFloat (u32 v))). Proof. reflexivity. Qed.
+Lemma any_double f dep : dany (S f) dep idDouble = (v <- rd_i64 ;; Ret (ADouble (u64 v))). Proof. reflexivity. Qed.
+Lemma any_bytearray f dep : dany (S f) dep idByteArray =
   (n <- rd_i32 ;; if (n <? 0)%Z then Fail eNeg else ReadFull (Z.to_N n) (fun bs => Ret (ABytes bs))).
 Proof. reflexivity. Qed.
-Lemma any_string f : dec_any (S f) idString = (s <- rd_string ;; Ret (AString s)). Proof. reflexivity. Qed.
-Lemma any_list f : dec_any (S f) idList =
-  (et <- rd_u8 ;; n <- rd_i32 ;;
-   if (n <? 0)%Z then Fail eNeg else l <- rep f (Z.to_N n) (dec_any f et) [] ;; Ret (AList l)).
+Lemma any_string f dep : dany (S f) dep idString = (s <- rd_string ;; Ret (AString s)). Proof. reflexivity. Qed.
+Lemma any_list f dep : dany (S f) dep idList =
+  (if dep =? 0 then Fail eDepth else
+   et <- rd_u8 ;; n <- rd_i32 ;;
+   if (n <? 0)%Z then Fail eNeg else l <- rep f (Z.to_N n) (dany f (dep - 1) et) [] ;; Ret (AList l)).
 Proof. reflexivity. Qed.
-Lemma any_compound f : dec_any (S f) idCompound =
-  (m <- comp_loop f rd_tag (dec_any f) (fun k v m => map_set k v m) [] ;; Ret (AMap m)).
+Lemma any_compound f dep : dany (S f) dep idCompound =
+  (if dep =? 0 then Fail eDepth else
+   m <- comp_loop f rd_tag (dany f (dep - 1)) (fun k v m => map_set k v m) [] ;; Ret (AMap m)).
 Proof. reflexivity. Qed.
-Lemma any_intarray f : dec_any (S f) idIntArray =
+
+(* nesting depth of the elements *)
+Lemma depth_list_in eid l x : In x l -> depth x + 1 <= depth (TList eid l).
+Proof.
+  cbn [depth]. induction l as [|y l IH]; cbn [In fold_right]; [tauto|]. intros [->|H]; [lia|]. specialize (IH H). lia.
+Qed.
+Lemma depth_comp_in l kv : In kv l -> depth (snd kv) + 1 <= depth (TCompound l).
+Proof.
+  cbn [depth]. induction l as [|y l IH]; cbn [In fold_right]; [tauto|]. intros [->|H]; [lia|]. specialize (IH H). lia.
+Qed.
+(* documents the decoders accept: at most max_open (= maxNestingDepth + 1) lists / compounds inside one another *)
+Definition nest_ok (t : tag) : Prop := depth t <= max_open.
+Lemma any_intarray f dep : dany (S f) dep idIntArray =
   (n <- rd_i32 ;; if (n <? 0)%Z then Fail eNeg else l <- rep f (Z.to_N n) rd_i32 [] ;; Ret (AInts l)).
 Proof. reflexivity. Qed.
-Lemma any_longarray f : dec_any (S f) idLongArray =
+Lemma any_longarray f dep : dany (S f) dep idLongArray =
   (n <- rd_i32 ;; if (n <? 0)%Z then Fail eNeg else l <- rep f (Z.to_N n) rd_i64 [] ;; Ret (ALongs l)).
 Proof. reflexivity. Qed.
 
@@ -182,10 +196,10 @@ Proof. destruct (Z.ltb_spec (Z.of_N x) 0); [lia|reflexivity]. Qed.
 Ltac wf_and H := unfold wf in H; cbn [wfb] in H; rewrite ?andb_true_iff in H.
 
 (* the main induction: interface{} destination *)
-Theorem dec_any_conforms : forall t, wf t -> forall fuel rest, (length (payload t) < fuel)%nat ->
-  run_flat (dec_any fuel (tag_id t)) (payload t ++ rest) = FOk (value_of t) rest.
+Theorem dany_conforms : forall t, wf t -> forall fuel dep rest, (length (payload t) < fuel)%nat -> depth t <= dep ->
+  run_flat (dany fuel dep (tag_id t)) (payload t ++ rest) = FOk (value_of t) rest.
 Proof.
-  induction t as [v|v|v|v|b|b|l|s|eid l IH|l IH|l|l] using tag_ind'; intros W fuel rest Hf;
+  induction t as [v|v|v|v|b|b|l|s|eid l IH|l IH|l|l] using tag_ind'; intros W fuel dep rest Hf Hd;
     (destruct fuel as [|f]; [lia|]); cbn [tag_id payload value_of].
   - rewrite any_byte, run_flat_bind by auto with rb. apply in_swb_spec in W. now rewrite rd_i8_val.
   - rewrite any_short, run_flat_bind by auto with rb. apply in_swb_spec in W. now rewrite rd_i16_val.
@@ -201,25 +215,27 @@ Proof.
   - apply name_ok_spec in W. destruct W as [_ W].
     rewrite any_string, run_flat_bind by auto with rb. rewrite <- app_assoc, rd_string_spec by exact W. reflexivity.
   - apply wf_list in W. destruct W as (He & Hne & Hl & Hall).
-    rewrite any_list, run_flat_bind by auto with rb. cbn [app]. rewrite run_rd_u8.
+    rewrite any_list. destruct (N.eqb_spec dep 0) as [E0|E0]; [cbn [depth] in Hd; lia|].
+    rewrite run_flat_bind by auto with rb. cbn [app]. rewrite run_rd_u8.
     rewrite run_flat_bind by auto with rb. rewrite <- app_assoc, rd_i32_len by exact Hl.
     rewrite ltb_ofN, N2Z.id. rewrite run_flat_bind by auto with rb.
     cbn [payload length] in Hf. rewrite app_length, be_length in Hf.
-    rewrite (rep_spec (dec_any f eid) payload value_of).
+    rewrite (rep_spec (dany f (dep - 1) eid) payload value_of).
     + reflexivity.
     + auto with rb.
     + rewrite Forall_forall in *. intros x Hx rest'. destruct (Hall x Hx) as [<- Wx].
-      apply IH; auto. pose proof (flat_map_length_in payload l x Hx). lia.
+      apply IH; auto; [pose proof (flat_map_length_in payload l x Hx); lia|pose proof (depth_list_in (tag_id x) l x Hx); lia].
     + pose proof (flat_map_length_ge payload l payload_pos). lia.
   - apply wf_compound in W.
-    rewrite any_compound, run_flat_bind by auto with rb.
+    rewrite any_compound. destruct (N.eqb_spec dep 0) as [E0|E0]; [cbn [depth] in Hd; lia|].
+    rewrite run_flat_bind by auto with rb.
     cbn [payload length] in Hf. rewrite app_length in Hf. cbn [length] in Hf.
     change (fun kv : list N * tag => tag_id (snd kv) :: be 2 (lenN (fst kv)) ++ fst kv ++ payload (snd kv)) with entry_enc in *.
-    rewrite (comp_spec rd_tag (dec_any f) _ value_of rd_tag_ok).
+    rewrite (comp_spec rd_tag (dany f (dep - 1)) _ value_of rd_tag_ok).
     + unfold map_of_list. rewrite fold_left_map_set. reflexivity.
     + auto with rb.
     + rewrite Forall_forall in *. intros kv Hkv. destruct (W kv Hkv) as [Hk Wv]. split; [exact Hk|].
-      intros rest'. apply IH; auto.
+      intros rest'. apply IH; auto; [|pose proof (depth_comp_in l kv Hkv); lia].
       pose proof (flat_map_length_in entry_enc l kv Hkv) as L. unfold entry_enc at 1 in L.
       cbn [length] in L. rewrite !app_length in L. lia.
     + assert (forall x, (4 <= length (entry_enc x))%nat) as H4.
@@ -247,3 +263,7 @@ Proof.
     + assert (forall x : Z, (8 <= length (be 8 (u64 x)))%nat) as H8 by (intros; rewrite be_length; lia).
       pose proof (flat_map_length_k (fun z => be 8 (u64 z)) l 8 H8). lia.
 Qed.
+
+Theorem dec_any_conforms : forall t, wf t -> nest_ok t -> forall fuel rest, (length (payload t) < fuel)%nat ->
+  run_flat (dec_any fuel (tag_id t)) (payload t ++ rest) = FOk (value_of t) rest.
+Proof. intros t W Hn fuel rest Hf. now apply dany_conforms. Qed.
